@@ -43,6 +43,36 @@ FINISH = {None: None, "reversed": pools.order_reversed, "rot1": pools.order_rot(
 LAST = []       # the previous conversion of this process (class-level tables of the reader survive between objects)
 
 
+def header_tie(rep, case, chk, model):
+    """the checkpoint Header as the real reader takes it against the Lean reading `ChkHeader.parse` (C17.time_read_partial,
+    grid_size_is_largest_upper_index): both raise, or agree on levels, step, time, corners, boxes and grid sizes"""
+    if not model:
+        return
+    from amr_kitchen.chk2plt.checkpoint_reader import CheckpointReader
+    m = leanio.driver([{"op": "chk_header", "hex": open(os.path.join(chk, "Header"), "rb").read().hex()}])[0]
+    try:
+        with quiet():
+            r = CheckpointReader(chk)
+    except Exception as e:
+        if m.get("status") == "raises":
+            rep.agree(); rep.count("checkpoint-header:both-refuse")
+        else:
+            rep.tie(f"the checkpoint reader raises {type(e).__name__} on a Header the Lean reading ChkHeader.parse accepts", case, m)
+        return
+    if m.get("status") != "ok":
+        rep.tie("the checkpoint reader accepts a Header the Lean reading ChkHeader.parse refuses", case, m); return
+    same = (int(r.max_level) == m["max_level"] and int(r.step_number) == m["step"]
+            and (float(r.time) == float(m["time"]) or (r.time != r.time and float(m["time"]) != float(m["time"])))
+            and [float(x) for x in r.geo_lo] == [float(x) for x in m["geo_lo"]] and [float(x) for x in r.geo_hi] == [float(x) for x in m["geo_hi"]]
+            and [np.asarray(b["indices"]).tolist() for b in r.boxes] == m["levels"]
+            and [[int(x) for x in g] for g in r.grid_sizes] == m["grid_sizes"])
+    if same:
+        rep.agree(); rep.count("checkpoint-header:read-alike")
+    else:
+        rep.tie("the checkpoint reader and the Lean reading ChkHeader.parse differ on the Header's content", case,
+                {"model": {k: m[k] for k in ("max_level", "step", "time", "grid_sizes")}, "real": [int(r.max_level), int(r.step_number), float(r.time), [[int(x) for x in g] for g in r.grid_sizes]]})
+
+
 def run_case(ctx, rep, spec, gradp, reactions, floor, source, model, start=None, finish=None, check=True, cli=False):
     from amr_kitchen.chk2plt.chk2plt import chk2plt
     root = ctx.newdir("c17_"); os.makedirs(root)
@@ -61,6 +91,8 @@ def run_case(ctx, rep, spec, gradp, reactions, floor, source, model, start=None,
     rep.count(f"levels:{len(spec['levels'])}"); rep.count(f"ghost:{spec['ng_state']}"); rep.count("source:" + source)
     rep.count("opts:" + ("G" if gradp else "-") + ("R" if reactions else "-") + ("F" if floor else "-"))
     kw = dict(species=list(sp)) if source == "list" else dict(target_plotfile=make_ref_plotfile(ctx, ctx.rng, spec["nspec"], source), species=[])
+    if check:
+        header_tie(rep, case, chk, model)
     try:
         with alarm(300), quiet(), pools.controlled(start=start, finish=FINISH[finish]):
             if cli:
